@@ -33,6 +33,7 @@ type World struct {
 	modFuncs []*ssa.Function // every source function of the module (incl. anon), deterministic order
 	cg       *callgraph.Graph
 	locks    *LockInfo
+	mayLocks *LockInfo
 }
 
 func loadWorld(repo string) (*World, error) {
